@@ -186,6 +186,64 @@ theorem tri_closed_form (n : Nat) : 2 * tri n = (n : Int) * ((n : Int) + 1) := b
       rw [Int.add_mul, Int.mul_add, Int.mul_add, Int.mul_add]; omega
     omega
 
+/-! ### Euclid's algorithm, for every pair of natural numbers
+
+`gcdProg a b` is `g(a, b)` with `g(x, y) = (y = 0)(x, g(y, x ㄴㅁ y))`: a two-parameter tail recursion through a function reference,
+with the remainder built-in.  Its by-name value is `Nat.gcd a b` for all `a`, `b` (strong induction on `b`), and adequacy
+makes that a statement about the evaluator. -/
+
+def gcdBody : AST :=
+  .call (.call (.lit 1 NatSemP.sp0) [.argRef (.lit 1 NatSemP.sp0) 0 NatSemP.sp0, .lit 0 NatSemP.sp0] NatSemP.sp0)
+    [.argRef (.lit 0 NatSemP.sp0) 0 NatSemP.sp0,
+     .call (.funRef 0 NatSemP.sp0)
+       [.argRef (.lit 1 NatSemP.sp0) 0 NatSemP.sp0,
+        .call (.lit (-33) NatSemP.sp0) [.argRef (.lit 0 NatSemP.sp0) 0 NatSemP.sp0, .argRef (.lit 1 NatSemP.sp0) 0 NatSemP.sp0] NatSemP.sp0]
+       NatSemP.sp0]
+    NatSemP.sp0
+
+def gcdProg (a b : Int) : AST := .call (.funDef gcdBody NatSemP.sp0) [.lit a NatSemP.sp0, .lit b NatSemP.sp0] NatSemP.sp0
+
+theorem gcd_step (a b : Nat) : Nat.gcd a b = Nat.gcd b (a % b) := by
+  rw [Nat.gcd_comm a b, Nat.gcd_rec b a, Nat.gcd_comm]
+
+/-- in the environment of a call of `g` whose argument expressions have the values `a` and `b`, the body has the value gcd a b -/
+theorem bn_gcd_loop : ∀ (b a : Nat) (ea eb : AST) (ρa ρb : TEnv), BN ρa ea (.int a) → BN ρb eb (.int b) →
+    BN (.mk [(gcdBody, .mk [] [])] [[(ea, ρa), (eb, ρb)]]) gcdBody (.int (Nat.gcd a b)) := by
+  intro b
+  induction b using Nat.strongRecOn with
+  | ind b ih =>
+    intro a ea eb ρa ρb ha hb
+    have harg0 : BN (.mk [(gcdBody, .mk [] [])] [[(ea, ρa), (eb, ρb)]]) (.argRef (.lit 0 NatSemP.sp0) 0 NatSemP.sp0) (.int a) :=
+      BN.argRef (frame := [(ea, ρa), (eb, ρb)]) (i := 0) rfl BN.lit (by simp) rfl ha
+    have harg1 : BN (.mk [(gcdBody, .mk [] [])] [[(ea, ρa), (eb, ρb)]]) (.argRef (.lit 1 NatSemP.sp0) 0 NatSemP.sp0) (.int b) :=
+      BN.argRef (frame := [(ea, ρa), (eb, ρb)]) (i := 1) rfl BN.lit (by simp) rfl hb
+    have hc := BN.eqInt (n := 1) (spf := NatSemP.sp0) (sp := NatSemP.sp0) (by decide +kernel) harg1 (BN.lit (n := 0) (sp := NatSemP.sp0))
+    cases b with
+    | zero =>
+      rw [Nat.gcd_zero_right]
+      exact BN.sel (b := true) rfl hc harg0
+    | succ k =>
+      have hne : (((k + 1 : Nat) : Int) == 0) = false := by
+        simp only [beq_eq_false_iff_ne, ne_eq]; omega
+      rw [hne] at hc
+      refine BN.sel (b := false) rfl hc ?_
+      have hy : ((k + 1 : Nat) : Int) ≠ 0 := by omega
+      have hrem := BN.remInt (n := -33) (spf := NatSemP.sp0) (sp := NatSemP.sp0) (by decide +kernel) harg0 harg1 hy
+      rw [← Int.ofNat_tmod] at hrem
+      rw [gcd_step a (k + 1)]
+      exact BN.call (b := gcdBody) (ρd := .mk [] []) rfl (BN.funRef rfl)
+        (ih (a % (k + 1)) (Nat.mod_lt _ (Nat.succ_pos k)) (k + 1) _ _ _ _ harg1 hrem)
+
+/-- **for all natural numbers `a`, `b`**, the by-name value of `gcdProg a b` is their greatest common divisor -/
+theorem bn_gcd (a b : Nat) : BN (.mk [] []) (gcdProg a b) (.int (Nat.gcd a b)) :=
+  BN.call (b := gcdBody) (ρd := .mk [] []) rfl BN.funDef (bn_gcd_loop b a _ _ _ _ BN.lit BN.lit)
+
+/-- … hence **the evaluator computes gcd a b for every pair** — Euclid's algorithm run by the call-by-need machine with its memo
+cells, requestor chains and tail returns, for unboundedly many inputs and unboundedly long evaluations -/
+theorem evaluator_gcd (a b : Nat) (w : World) :
+    ∃ (h : Nat) (s' : Store), Eval (alloc initStore (gcdProg a b) ⟨[], []⟩) w (.frame initStore.cells.size) h
+        (.ok (.arg (.strict (.int (Nat.gcd a b))))) s' w := by_name_program _ _ w (bn_gcd a b)
+
 /-! ### C03 in the reference semantics: what is not needed does not matter -/
 
 /-- the branch a Boolean does not select is irrelevant: replacing it by *any* expression — one that raises, diverges or is
@@ -199,6 +257,7 @@ theorem unselected_branch_irrelevant {ρ f x y sp v} (y' : AST) (hf : tagOf f = 
   | addInt _ _ _ => simp [tagOf] at hf
   | mulInt _ _ _ => simp [tagOf] at hf
   | ltInt _ _ _ => simp [tagOf] at hf
+  | remInt _ _ _ _ => simp [tagOf] at hf
   | mkList _ => simp [tagOf] at hf
 
 theorem unselected_branch_irrelevant' {ρ f x y sp v} (x' : AST) (hf : tagOf f = none) (hc : BN ρ f (.bool false))
@@ -210,6 +269,7 @@ theorem unselected_branch_irrelevant' {ρ f x y sp v} (x' : AST) (hf : tagOf f =
   | addInt _ _ _ => simp [tagOf] at hf
   | mulInt _ _ _ => simp [tagOf] at hf
   | ltInt _ _ _ => simp [tagOf] at hf
+  | remInt _ _ _ _ => simp [tagOf] at hf
   | mkList _ => simp [tagOf] at hf
 
 /-- … and so does the evaluator's result (adequacy): the two closed programs evaluate to the same integer, whatever the
